@@ -547,6 +547,7 @@ func (m *Mux) serveGRPC(w http.ResponseWriter, r *http.Request) {
 
 	// Handle stats.
 	beginTime := time.Now()
+	var herr error // handler error
 	if sh := m.opts.statsHandler; sh != nil {
 		ctx = sh.TagRPC(ctx, &stats.RPCTagInfo{
 			FullMethodName: hd.method,
@@ -568,6 +569,16 @@ func (m *Mux) serveGRPC(w http.ResponseWriter, r *http.Request) {
 			IsServerStream:            hd.desc.IsStreamingServer(),
 			IsTransparentRetryAttempt: false, // TODO
 		})
+
+		// The RPC has begun, end it on every return path.
+		defer func(ctx context.Context) {
+			sh.HandleRPC(ctx, &stats.End{
+				Client:    false,
+				BeginTime: beginTime,
+				EndTime:   time.Now(),
+				Error:     herr,
+			})
+		}(ctx)
 	}
 
 	ctx, cancel := context.WithCancel(ctx)
@@ -595,7 +606,7 @@ func (m *Mux) serveGRPC(w http.ResponseWriter, r *http.Request) {
 		stream.wg.Wait()
 	}()
 
-	herr := hd.handler(&m.opts, stream)
+	herr = hd.handler(&m.opts, stream)
 	if !stream.sentHeader {
 		if err := stream.SendHeader(nil); err != nil {
 			return // ctx canceled
@@ -622,17 +633,8 @@ func (m *Mux) serveGRPC(w http.ResponseWriter, r *http.Request) {
 	setOutgoingTrailer(h, stream.trailer)
 
 	if sh := m.opts.statsHandler; sh != nil {
-		endTime := time.Now()
-
 		sh.HandleRPC(ctx, &stats.OutTrailer{
 			Trailer: stream.trailer.Copy(),
-		})
-
-		sh.HandleRPC(ctx, &stats.End{
-			Client:    false,
-			BeginTime: beginTime,
-			EndTime:   endTime,
-			Error:     herr,
 		})
 	}
 }
